@@ -59,6 +59,14 @@ class Parked:
             c = conn(); c.execute("PRAGMA cache_size=5"); c.execute("BEGIN")
             c.execute("UPDATE t SET b = 'UNCOMMITTED-' || b")     # more dirty pages than the cache holds: spilled to the file
 
+    def try_commit(self):
+        """the parked writer goes for EXCLUSIVE (COMMIT); True when it got it"""
+        try:
+            self.conns[-1].execute("COMMIT")
+            return True
+        except sqlite3.OperationalError:
+            return False
+
     def release(self):
         for c in self.conns:
             try:
@@ -178,6 +186,48 @@ def check(run):
             if "shared=W" in spilled_probe or "writes=0" not in (m[-1] if m else ""):
                 run.violation("a writer that spills its cache while a read is inside its callback got EXCLUSIVE (%s; a third process saw [%s]); the model says %s" % (res, spilled_probe, m[-1:] ),
                               {"kind": "reader-vs-writer", "db": path, "scenario": "hold select; %s; writer BEGIN IMMEDIATE + UPDATE with cache_size=5" % (nested or "no nested call"), "writer": res, "probe": spilled_probe, "model": m})
+    # a read that STARTS while a writer is already parked in RESERVED (with or without its journal on disk): the read is
+    # admitted; while it is inside its callback the writer's COMMIT must be refused (the reader's SHARED lock must really
+    # be held, whatever the reader did on the way in to find out about the journal), and what the read and the next
+    # read return is the committed content
+    dist["commit_during_read"] = {}
+    for state in ("reserved", "reserved-journal"):
+        for who in ("fresh handle", "long-lived handle"):
+            for op in ("select t a,b", "iselect t t_a a,b"):
+                run.count()
+                c = sqlite3.connect(path, isolation_level=None)
+                before = c.execute("SELECT a, b FROM t ORDER BY rowid").fetchall()
+                c.close()
+                pk = Parked(path, state)
+                s = long_lived if who == "long-lived handle" else core.Session(core.IMPLRUN)
+                if who == "fresh handle":
+                    s.cmd("fopen %s" % path)
+                core.session_send(s, "hold normal " + op)
+                lines = core.session_read_until(s, lambda l: l == "paused" or l.startswith("held"))
+                got_excl = None
+                if lines[-1] == "paused":
+                    got_excl = pk.try_commit()
+                    core.session_send(s, "resume")
+                    lines = core.session_read_until(s, lambda l: l.startswith("held"))
+                dist["commit_during_read"]["%s/%s/%s" % (state, who, op.split(" ")[0])] = {"writer_commit_succeeded": got_excl, "read": lines[-1]}
+                if got_excl is None:
+                    run.violation("writer in %s, %s, %s: the read was not admitted (%s)" % (state.upper(), who, op, lines[-1:]),
+                                  {"kind": "reader-vs-writer", "db": path, "state": state, "command": "hold normal " + op, "handle": who, "impl": lines[-3:]})
+                elif got_excl:
+                    run.violation("writer in %s, %s: while %s was inside its row callback the writer's COMMIT went through - the reader did not hold its SHARED lock" % (state.upper(), who, op),
+                                  {"kind": "reader-vs-writer", "db": path, "state": state, "scenario": "writer parked; hold %s; writer COMMIT; resume" % op, "handle": who, "impl": lines[-3:]})
+                elif not lines[-1].endswith(" ok"):
+                    run.violation("writer in %s, %s, %s: the read failed (%s) although the writer could not commit" % (state.upper(), who, op, lines[-1]),
+                                  {"kind": "reader-vs-writer", "db": path, "state": state, "command": "hold normal " + op, "handle": who, "impl": lines[-3:]})
+                pk.release()
+                out = s.cmd("select t 0 a,b")
+                d = hl.same_rows(out, before) if not got_excl else None
+                if d:
+                    run.violation("after a writer in %s was refused its COMMIT during a read and rolled back, %s, select t: %s" % (state.upper(), who, d),
+                                  {"kind": "reader-vs-writer", "db": path, "state": state, "handle": who, "impl": out[:3] + out[-2:]})
+                run.nontrivial("commit-during-read/%s/%s/%s" % (state, who, op))
+                if who == "fresh handle":
+                    s.close()
     long_lived.close(); model.close()
     run.cov["traces_validated_against_impl"] = dist["reads"]
     run.cov["rule"] = ("a real SQLite connection (python sqlite3, another process than the reader) is parked in UNLOCKED, SHARED (open cursor), RESERVED (uncommitted changes in its cache), RESERVED "
